@@ -21,28 +21,30 @@ Definition v_aead (v : N) : Prop := v = 1 \/ v = 3 \/ v = 4.              (* no 
 Definition v_full (v : N) : Prop := v = 1 \/ v = 2 \/ v = 3 \/ v = 4.
 Definition v_tink_raw (v : N) : Prop := v = 1 \/ v = 3.
 Definition rsa_exp (e : N) : Prop := 65537 <= e /\ e <= 2147483647 /\ e mod 2 = 1.
+(* a size read from a uint32 field of a key format: the parsers put no other upper bound on it *)
+Definition u32b (x : N) : Prop := x < 4294967296.
 
 Fixpoint params_wf (p : params) : Prop :=
   match p with
   | QAesGcm k v => (k = 16 \/ k = 24 \/ k = 32) /\ v_aead v
   | QAesGcmSiv k v => (k = 16 \/ k = 32) /\ v_aead v
   | QAesCtrHmac aes hk iv tag hash v =>
-      (aes = 16 \/ aes = 24 \/ aes = 32) /\ 16 <= hk /\ 12 <= iv /\ iv <= 16 /\ 10 <= tag /\ tag <= dsize hash
+      (aes = 16 \/ aes = 24 \/ aes = 32) /\ 16 <= hk /\ u32b hk /\ 12 <= iv /\ iv <= 16 /\ 10 <= tag /\ tag <= dsize hash
       /\ is_hash hash /\ v_aead v
   | QChaCha v | QXChaCha v => v_aead v
   | QXAesGcm salt v => 8 <= salt /\ salt <= 12 /\ v_tink_raw v
   | QAesSiv k v => (k = 32 \/ k = 48 \/ k = 64) /\ v_aead v
-  | QHmac k tag hash v => 16 <= k /\ 10 <= tag /\ tag <= dsize hash /\ is_hash hash /\ v_full v
+  | QHmac k tag hash v => 16 <= k /\ u32b k /\ 10 <= tag /\ tag <= dsize hash /\ is_hash hash /\ v_full v
   | QAesCmac k tag v => (k = 16 \/ k = 32) /\ 10 <= tag /\ tag <= 16 /\ v_full v
   | QAesCmacPrf k => k = 16 \/ k = 32
-  | QHkdfPrf k hash _ => 16 <= k /\ is_hash hash
-  | QHmacPrf k hash => 16 <= k /\ is_hash hash
+  | QHkdfPrf k hash _ => 16 <= k /\ u32b k /\ is_hash hash
+  | QHmacPrf k hash => 16 <= k /\ u32b k /\ is_hash hash
   | QEcdsa curve hash enc v =>
       ((curve = 2 /\ hash = 3) \/ (curve = 3 /\ (hash = 2 \/ hash = 4)) \/ (curve = 4 /\ hash = 4))
       /\ (enc = 1 \/ enc = 2) /\ v_full v
   | QEd25519 v => v_full v
-  | QRsaPkcs1 bits hash e v => 2048 <= bits /\ sig_hash hash /\ rsa_exp e /\ v_full v
-  | QRsaPss bits hash e salt v => 2048 <= bits /\ sig_hash hash /\ rsa_exp e /\ salt < 2147483648 /\ v_full v
+  | QRsaPkcs1 bits hash e v => 2048 <= bits /\ u32b bits /\ sig_hash hash /\ rsa_exp e /\ v_full v
+  | QRsaPss bits hash e salt v => 2048 <= bits /\ u32b bits /\ sig_hash hash /\ rsa_exp e /\ salt < 2147483648 /\ v_full v
   | QMlDsa inst v => (inst = 1 \/ inst = 2 \/ inst = 3) /\ (v = 1 \/ v = 3 \/ v = 5)
   | QSlhDsa hash ks sig v => (hash = 1 \/ hash = 2) /\ (ks = 64 \/ ks = 96 \/ ks = 128) /\ (sig = 1 \/ sig = 2) /\ v_tink_raw v
   | QComposite alg inst v =>
@@ -54,13 +56,13 @@ Fixpoint params_wf (p : params) : Prop :=
       /\ 1 <= dem /\ dem <= 6 /\ v_aead v
   | QHpke kem kdf aead v => 1 <= kem /\ kem <= 7 /\ 1 <= kdf /\ kdf <= 3 /\ 1 <= aead /\ aead <= 3 /\ v_aead v
   | QStreamGcmHkdf ikm derived hash seg =>
-      (derived = 16 \/ derived = 32) /\ derived <= ikm /\ stream_hash hash /\ derived + 25 <= seg /\ seg < 2147483648
+      (derived = 16 \/ derived = 32) /\ derived <= ikm /\ u32b ikm /\ stream_hash hash /\ derived + 25 <= seg /\ seg < 2147483648
   | QStreamCtrHmac ikm derived hkdf hash tag seg =>
-      (derived = 16 \/ derived = 32) /\ derived <= ikm /\ stream_hash hkdf /\ stream_hash hash
+      (derived = 16 \/ derived = 32) /\ derived <= ikm /\ u32b ikm /\ stream_hash hkdf /\ stream_hash hash
       /\ 10 <= tag /\ tag <= dsize hash /\ derived + tag + 9 <= seg /\ seg < 2147483648
-  | QJwtHmac k alg v => ((alg = 1 /\ 32 <= k) \/ (alg = 2 /\ 48 <= k) \/ (alg = 3 /\ 64 <= k)) /\ v_tink_raw v
+  | QJwtHmac k alg v => ((alg = 1 /\ 32 <= k) \/ (alg = 2 /\ 48 <= k) \/ (alg = 3 /\ 64 <= k)) /\ u32b k /\ v_tink_raw v
   | QJwtEcdsa alg v | QJwtMlDsa alg v => (alg = 1 \/ alg = 2 \/ alg = 3) /\ v_tink_raw v
-  | QJwtRsa _ alg bits e v => (alg = 1 \/ alg = 2 \/ alg = 3) /\ 2048 <= bits /\ rsa_exp e /\ v_tink_raw v
+  | QJwtRsa _ alg bits e v => (alg = 1 \/ alg = 2 \/ alg = 3) /\ 2048 <= bits /\ u32b bits /\ rsa_exp e /\ v_tink_raw v
   | QDeriver prf d =>
       match prf with QAesCmacPrf _ | QHkdfPrf _ _ _ | QHmacPrf _ _ => True | _ => False end
       /\ params_wf prf /\ params_wf d
@@ -74,10 +76,16 @@ Definition deriver_wf (e : xentry) : Prop :=
   match xkey e with
   | XBase _ => True
   | XDeriver prf dp =>
-      (* the PRF key is a key object of one of the three PRF types, the derived-key parameters
+      (* the PRF key is a key object of one of the three PRF types with the sizes its parser demands
+         (HKDF / HMAC PRF: key >= 16 bytes and a known hash; AES-CMAC PRF: 16 or 32 bytes), the derived-key parameters
          are well formed, ask for an id exactly when the key's prefix type is not RAW, and are
          reported with the key's prefix type (LEGACY possibly as CRUNCHY) *)
-      match prf with PHkdfPrf _ _ | PHmacPrf _ _ | PAesCmacPrf _ => True | _ => False end
+      (* what the PRF key parsers establish (prf/{hkdfprf,hmacprf,aescmacprf} NewParameters / NewKey) *)
+      match prf with
+      | PHkdfPrf hash kl | PHmacPrf hash kl => 16 <= kl /\ is_hash hash
+      | PAesCmacPrf kl => kl = 16 \/ kl = 32
+      | _ => False
+      end
       /\ params_wf dp
       /\ params_has_idreq dp = negb (xprefix e =? 3)
       /\ (params_prefix dp = xprefix e \/ (xprefix e = 2 /\ params_prefix dp = 4))
